@@ -2,6 +2,7 @@
 from __future__ import annotations
 
 import json
+from fractions import Fraction
 import random
 
 import z3
@@ -225,6 +226,7 @@ def configs(tier, seed):
         out.append((CP.P3(), True, False))
         out.append((CP.P1(), False, False))
         out.append((CP.P17(), True, True))
+        out.append((CP.with_noise(CP.P3(), process={"a": Fraction(1, 4), "u": Fraction(3, 8)}, sensor={"one": {"r": Fraction(1, 8)}}, pid="P3-nl3-rational-noise"), True, True))
         out.append((CP.P21(), True, True))
         out.append((CP.P22(), True, True))
         out.append((CP.P23(), True, True))
